@@ -4,7 +4,9 @@
 (* preset, then histories of enable/disable of OPTIONAL rules and option   *)
 (* assignments, up to a depth bound.  A configuration is exported as       *)
 (*   [preset, on (rules enabled on top), off (rules disabled), opts]       *)
-(* "Supported" (C01): the fallback rules that guarantee progress (block    *)
+(* The optional set is the one the quantifier of C01 lists (the post-processing rules
+   balance_pairs / fragments_join are not in it: without fragments_join levels are not recomputed).
+   "Supported" (C01): the fallback rules that guarantee progress (block    *)
 (* paragraph, inline text) and the core pipeline (normalize, block,        *)
 (* inline, text_join) are never switched off - they are not in the         *)
 (* optional set, and the invariant states it.                              *)
